@@ -320,6 +320,8 @@ def solo_replay(tid: int, cfg: dict, side: str, ins: list) -> dict:
                 w.call(side, "cancel", a["right"])
             elif k == "reset":
                 w.call(side, "reset")
+            elif k == "lazy":
+                w.call(side, "fsm", None, take=0)
             elif k == "put":
                 if a["mdOnly"]:
                     sf = df = None
